@@ -9,13 +9,13 @@ storage (helper for `Proofs/C07.lean`).
 namespace Fsic.Fortran
 variable {F4 F8 : Type}
 
-/-- What one numbered equation must satisfy at column `index`: kind-safe, a 1-based left-hand row, and every
+/-- What one numbered equation must satisfy at column `index`: kind-safe, a 1-based left-hand row whose column is inside the span, and every
     reference 1-based with its column inside the span. -/
-def EqOk (exact4 : Nat → Nat → Bool) (ncols : Nat) (index : Int) (re : Nat × Expr Nat) : Prop :=
-  kindSafe exact4 re.2 = true ∧ 1 ≤ re.1 ∧
+def EqOk (exact4 : Nat → Nat → Bool) (ncols : Nat) (index : Int) (re : (Nat × Int) × Expr Nat) : Prop :=
+  kindSafe exact4 re.2 = true ∧ 1 ≤ re.1.1 ∧ 1 ≤ index + re.1.2 ∧ index + re.1.2 ≤ ncols ∧
     ∀ p ∈ re.2.refs, 1 ≤ p.1 ∧ 1 ≤ index + p.2 ∧ index + p.2 ≤ ncols
 
-instance (exact4 : Nat → Nat → Bool) (ncols : Nat) (index : Int) (re : Nat × Expr Nat) :
+instance (exact4 : Nat → Nat → Bool) (ncols : Nat) (index : Int) (re : (Nat × Int) × Expr Nat) :
     Decidable (EqOk exact4 ncols index re) := by unfold EqOk; infer_instance
 
 theorem cell_eq {F : Type} (s : Mat F) (g : F) (a : Nat) (t k : Int) (ha : 1 ≤ a)
@@ -54,16 +54,15 @@ theorem refsOk_of {α : Type} (n : Nat) (t : Int) (index : Int) (hidx : index = 
     intro h
     simp [refsOk, ihx (fun p hp => h p (by simp [Expr.refs, hp])), ihy (fun p hp => h p (by simp [Expr.refs, hp]))]
 
-theorem fset_eq_pySetD {F : Type} (s : Mat F) (r : Nat) (t : Int) (x : F) (hr : 1 ≤ r)
+theorem fset_eq_pySetD {F : Type} (s : Mat F) (r : Nat) (t k : Int) (x : F) (hr : 1 ≤ r)
     (ht : -(s.ncols : Int) ≤ t) (ht' : t < s.ncols)
-    (hlo : 1 ≤ indexOf s.ncols (t + 1)) (hhi : indexOf s.ncols (t + 1) ≤ s.ncols) :
-    s.fset (r : Int) (indexOf s.ncols (t + 1)) x = s.pySetD (r - 1) t x := by
-  have hpy := pyIndex_of_index s.ncols t 0 ht ht' (by simpa using hlo) (by simpa using hhi)
-  simp only [Int.add_zero] at hpy
+    (hlo : 1 ≤ indexOf s.ncols (t + 1) + k) (hhi : indexOf s.ncols (t + 1) + k ≤ s.ncols) :
+    s.fset (r : Int) (indexOf s.ncols (t + 1) + k) x = s.pySetD (r - 1) (t + k) x := by
+  have hpy := pyIndex_of_index s.ncols t k ht ht' hlo hhi
   unfold Mat.pySetD Mat.pySet Mat.fset
   rw [hpy]
-  obtain ⟨p, hp⟩ : ∃ p : Nat, indexOf s.ncols (t + 1) = (p : Int) + 1 :=
-    ⟨(indexOf s.ncols (t + 1) - 1).toNat, by omega⟩
+  obtain ⟨p, hp⟩ : ∃ p : Nat, indexOf s.ncols (t + 1) + k = (p : Int) + 1 :=
+    ⟨(indexOf s.ncols (t + 1) + k - 1).toNat, by omega⟩
   have hr' : (r : Int) = ((r - 1 : Nat) : Int) + 1 := by omega
   rw [hp, hr', offsetOf_pos]
   have h1 : ((p : Int) + 1 - 1).toNat = p := by omega
@@ -83,12 +82,11 @@ theorem pBody_eq_fBody (T : Tower F4 F8) (exact4 : Nat → Nat → Bool) (hc : C
   | nil => intro s _ _; rfl
   | cons re rest ih =>
     intro s hs hok
-    obtain ⟨r, e⟩ := re
-    obtain ⟨hsafe, hr, hrefs⟩ := hok (r, e) (by simp)
+    obtain ⟨⟨r, k⟩, e⟩ := re
+    obtain ⟨hsafe, hr, hklo, hkhi, hrefs⟩ := hok ((r, k), e) (by simp)
     subst hs
     have hro := refsOk_of s.ncols t (indexOf s.ncols (t + 1)) rfl ht ht' e (fun p hp => (hrefs p hp).2)
-    have hpy := pyIndex_of_index s.ncols t 0 ht ht' (by simpa using hlo) (by simpa using hhi)
-    simp only [Int.add_zero] at hpy
+    have hpy := pyIndex_of_index s.ncols t k ht ht' hklo hkhi
     -- the value stored is the same
     have hcell : ∀ p ∈ e.refs,
         (fun (a : Nat) off => s.fget (T.o8.ofInt 0) (a : Int) (indexOf s.ncols (t + 1) + off)) p.1 p.2
@@ -103,10 +101,67 @@ theorem pBody_eq_fBody (T : Tower F4 F8) (exact4 : Nat → Nat → Bool) (hc : C
       rw [to8_eq_toF_lift, hv3]; rfl
     unfold pBody fBody
     simp only [hro, hpy, Option.isSome_some, Bool.and_self, if_true, hv1]
-    rw [hval, fset_eq_pySetD s r t _ hr ht ht' hlo hhi]
-    have hnc : (s.pySetD (r - 1) t (pRhs T.o8 s t e)).ncols = s.ncols := by
+    rw [hval, fset_eq_pySetD s r t k _ hr ht ht' hklo hkhi]
+    have hnc : (s.pySetD (r - 1) (t + k) (pRhs T.o8 s t e)).ncols = s.ncols := by
       unfold Mat.pySetD Mat.pySet; rw [hpy]
-    have := ih (s.pySetD (r - 1) t (pRhs T.o8 s t e)) hnc (fun re hre => hok re (by simp [hre]))
+    have := ih (s.pySetD (r - 1) (t + k) (pRhs T.o8 s t e)) hnc (fun re hre => hok re (by simp [hre]))
     rw [this]
+
+/-! ### Which cells a pass may write -/
+
+theorem fset_mem_ne {F : Type} (s : Mat F) (r c : Int) (v : F) (q : Nat) (h : offsetOf s.nrows r c ≠ (q : Int)) :
+    (s.fset r c v).mem[q]? = s.mem[q]? := by
+  unfold Mat.fset
+  split
+  · rename_i h0
+    apply setAt_getElem?_ne
+    intro e
+    apply h
+    omega
+  · rfl
+
+theorem fset_nrows {F : Type} (s : Mat F) (r c : Int) (v : F) : (s.fset r c v).nrows = s.nrows := by
+  unfold Mat.fset; split <;> rfl
+
+theorem fset_ncols {F : Type} (s : Mat F) (r c : Int) (v : F) : (s.fset r c v).ncols = s.ncols := by
+  unfold Mat.fset; split <;> rfl
+
+/-- The `{equations}` block at column `index` writes at most the cells `(lhs row, index + lhs offset)` of its
+    statements; every other cell of the block, and its shape, are what they were. -/
+theorem fBody_frame (T : Tower F4 F8) (index : Int) (q : Nat) :
+    ∀ (prog : Prog) (s : Mat F8),
+      (∀ re ∈ prog, offsetOf s.nrows (re.1.1 : Nat) (index + re.1.2) ≠ (q : Int)) →
+      (fBody T prog s index).mem[q]? = s.mem[q]? ∧ (fBody T prog s index).nrows = s.nrows ∧
+        (fBody T prog s index).ncols = s.ncols := by
+  intro prog
+  induction prog with
+  | nil => intro s _; exact ⟨rfl, rfl, rfl⟩
+  | cons re rest ih =>
+    intro s h
+    obtain ⟨⟨r, k⟩, e⟩ := re
+    have h1 := h ((r, k), e) (by simp)
+    unfold fBody
+    split
+    · rename_i v _
+      have hn := fset_nrows s (r : Nat) (index + k) (v.to8 T)
+      have := ih (s.fset (r : Nat) (index + k) (v.to8 T)) (fun re hre => by rw [hn]; exact h re (by simp [hre]))
+      exact ⟨this.1.trans (fset_mem_ne s _ _ _ q h1), this.2.1.trans hn, this.2.2.trans (fset_ncols s _ _ _)⟩
+    · exact ih s (fun re hre => h re (by simp [hre]))
+
+/-- The offset copy writes at most the cells `(endogenous row, dst)`. -/
+theorem copyRows_frame {F : Type} (g : F) (dst src : Nat) (s0 : Mat F) (q : Nat) :
+    ∀ (rows : List Nat) (s : Mat F), s.nrows = s0.nrows →
+      (∀ r ∈ rows, offsetOf s0.nrows (r : Nat) (dst : Nat) ≠ (q : Int)) →
+      (rows.foldl (fun acc (r : Nat) => acc.fset r dst (s0.fget g r src)) s).mem[q]? = s.mem[q]? := by
+  intro rows
+  induction rows with
+  | nil => intro s _ _; rfl
+  | cons r rest ih =>
+    intro s hn h
+    simp only [List.foldl]
+    have h1 := h r (by simp)
+    rw [ih (s.fset r dst (s0.fget g r src)) (by rw [fset_nrows]; exact hn) (fun r' hr' => h r' (by simp [hr']))]
+    exact fset_mem_ne s _ _ _ q (by rw [hn]; exact h1)
+
 
 end Fsic.Fortran
